@@ -33,6 +33,17 @@ pub fn run() {
 			eval_case("incremental", o_incremental, &bytes, &p, || format!("{} sched={:?} skip_opt={}", abs.describe(), s, k == 2), local);
 		}
 	});
+	{
+		let uni = universe(cx.quick());
+		par_each(uni.into_iter().enumerate(), |(i, abs), local| {
+			let bytes = Arc::new(record(&abs).doc.assemble());
+			let s = [Sched::Full, Sched::Chunk(1), Sched::Chunk(4)][i % 3].clone();
+			let mut p = P { class: "universe", skip: i % 2 == 1, ..Default::default() };
+			set_sched(&mut p, &s);
+			p.n[0] = aspects;
+			eval_case("incremental", o_incremental, &bytes, &p, || format!("{} sched={:?}", abs.describe(), s), local);
+		});
+	}
 	// end / metadata variants at deviation 0 across all class representatives
 	let mut vcases = vec![];
 	for v in crate::spec::v_rep() {
